@@ -20,4 +20,4 @@ def specs():
 def bounded(tier, seed, pr):
     from pyvc.boundedrun import run_bounded
 
-    return [run_bounded(pr, "b_api.py", "native_scenarios_commit", args={"groups": ['commit']}), run_bounded(pr, "b_commit.py", "latest_kept_value_on_every_store_kind")]
+    return [run_bounded(pr, "b_api.py", "native_scenarios_commit", args={"groups": ['commit']}), run_bounded(pr, "b_commit.py", "latest_kept_value_on_every_store_kind"), run_bounded(pr, "b_leftovers.py", "store_blob_from_leftover_states")]
